@@ -1478,6 +1478,14 @@ func (f *Flooder) OnPeerConnected(peerID identity.AgentID) {
 		return
 	}
 
+	// When a signing key is configured, forward only a command that still verifies:
+	// its timestamp may have left the validity window since it was stored (peers
+	// would reject it anyway).
+	if err := f.verifyWakeCommand(cmd); err != nil {
+		f.ClearPendingWake()
+		return
+	}
+
 	f.logger.Debug("forwarding pending wake to new peer",
 		"origin", cmd.OriginAgent.ShortString(),
 		"command_id", cmd.CommandID,
